@@ -3,6 +3,7 @@
 package server
 
 import (
+	"fmt"
 	"net"
 	"sort"
 	"time"
@@ -70,3 +71,47 @@ func (svr *Service) VerifRC() *controller.ResourceController { return svr.rc }
 // VerifPutInternalConn injects a connection into the internal (ssh tunnel gateway) listener,
 // exactly as pkg/ssh and pkg/virtual do (verification tooling only).
 func (svr *Service) VerifPutInternalConn(c net.Conn) error { return svr.sshTunnelListener.PutConn(c) }
+
+// VerifResources lists every server-side resource currently held on behalf of proxies, as strings
+// "kind:detail" (verification tooling only).
+func (svr *Service) VerifResources() []string {
+	out := []string{}
+	for _, n := range svr.pxyManager.VerifNames() {
+		out = append(out, "name:"+n)
+	}
+	for p := range svr.rc.TCPPortManager.VerifSnapshot().Used {
+		out = append(out, fmt.Sprintf("tcpport:%d", p))
+	}
+	for p := range svr.rc.UDPPortManager.VerifSnapshot().Used {
+		out = append(out, fmt.Sprintf("udpport:%d", p))
+	}
+	for _, r := range svr.httpVhostRouter.VerifDump() {
+		out = append(out, "httproute:"+r)
+	}
+	if svr.rc.VhostHTTPSMuxer != nil {
+		for _, r := range svr.rc.VhostHTTPSMuxer.VerifRoutes() {
+			out = append(out, "httpsroute:"+r)
+		}
+	}
+	if svr.rc.TCPMuxHTTPConnectMuxer != nil {
+		for _, r := range svr.rc.TCPMuxHTTPConnectMuxer.VerifRoutes() {
+			out = append(out, "tcpmuxroute:"+r)
+		}
+	}
+	for _, n := range svr.rc.VisitorManager.VerifNames() {
+		out = append(out, "visitor:"+n)
+	}
+	for _, g := range svr.rc.TCPGroupCtl.VerifGroups() {
+		out = append(out, "tcpgroup:"+g)
+	}
+	for _, g := range svr.rc.HTTPGroupCtl.VerifGroups() {
+		out = append(out, "httpgroup:"+g)
+	}
+	for _, g := range svr.rc.TCPMuxGroupCtl.VerifGroups() {
+		out = append(out, "tcpmuxgroup:"+g)
+	}
+	cl, se := svr.rc.NatHoleController.VerifSizes()
+	out = append(out, fmt.Sprintf("natclients:%d", cl), fmt.Sprintf("natsessions:%d", se))
+	sort.Strings(out)
+	return out
+}
